@@ -249,4 +249,8 @@ pub struct Replay {
     pub minimiser_executions: u64,
     pub failing_op_index: usize,
     pub plan: Plan,
+    /// Clause `process-state-shared` only: histories executed earlier in the same process
+    /// (on other contexts) that change what `plan` shows.
+    #[serde(default)]
+    pub prefix_plans: Vec<Plan>,
 }
